@@ -38,6 +38,19 @@ def build_cases(tier):
         for plug in (False, True):
             cases.append(dict(family="literal", schema=corpus2.SCHEMA_L, doc_text=doc, ops=[{"name": name, "kwargs": {}}], tags=set(tags) | ({"extract_plugin"} if plug else set()),
                               options={"plugins": [EXTRACT]} if plug else {}))
+    MIX = "class MixinA:\n    pass\n\n\nclass MixinB:\n    pass\n"
+    mixin_ops = {
+        "mixin_on_field": 'query MixF { user @mixin(from: ".mixins", import: "MixinA") { id friend @mixin(from: ".mixins", import: "MixinB") { id } } }\n',
+        "mixin_twice_on_field": 'query MixT { user @mixin(from: ".mixins", import: "MixinA") @mixin(from: ".mixins", import: "MixinB") @include(if: true) { id } }\n',
+        "mixin_on_fragment_definition": 'query MixD { user { ...FM } }\nfragment FM on User @mixin(from: ".mixins", import: "MixinA") { id name }\n',
+        "mixin_inside_fragment_field": 'query MixI { user { ...FI } }\nfragment FI on User { id friend @mixin(from: ".mixins", import: "MixinB") { id } }\n',
+        "mixin_field_shared_by_two_ops": 'query MixS1 { user @mixin(from: ".mixins", import: "MixinA") { ...FS } }\nquery MixS2 { userReq { ...FS } }\nfragment FS on User { id friend @mixin(from: ".mixins", import: "MixinB") { id } }\n',
+    }
+    for label, q in mixin_ops.items():
+        for plug in (False, True):
+            names = [d.name.value for d in parse(q).definitions if d.kind == "operation_definition"]
+            cases.append(dict(family="mixin", schema=corpus.SCHEMA_K, doc_text=q, ops=[{"name": n, "kwargs": {}} for n in names], tags={f"mixin:{label}"} | ({"extract_plugin"} if plug else set()),
+                              options=dict({"files_to_include": ["@mixins.py"]}, **({"plugins": [EXTRACT]} if plug else {})), files={"mixins.py": MIX}))
     graph_sets = [(2, FT4), (3, ("User", "Node"))] if tier == "quick" else [(2, FT4), (3, ("User", "Node", "Named")), (4, ("User", "Node"))]
     for nf, ts in graph_sets:
         for g in corpus2.fragment_graphs(nf, ts):
@@ -57,7 +70,7 @@ def main(tier):
     genpkg.warm()
     K = corpus.schema_k()
     cases = build_cases(tier)
-    payload = [dict(schema=c["schema"], doc_text=c["doc_text"], ops=c["ops"], options=c["options"]) for c in cases]
+    payload = [dict(schema=c["schema"], doc_text=c["doc_text"], ops=c["ops"], options=c["options"], files=c.get("files")) for c in cases]
     results = pool.run_cases(opcheck.capture_requests, payload, timeout=300, progress=1000)
     stats = {"cases": len(cases), "requests_checked": 0, "generation_failures": 0, "invalid_inputs_skipped": 0, "plugin_pairs_compared": 0}
     fam = {}
@@ -83,7 +96,7 @@ def main(tier):
                 stats["invalid_inputs_skipped"] += 1
                 continue
             stats["generation_failures"] += 1
-            if c["family"] != "literal":
+            if c["family"] not in ("literal", "mixin"):
                 continue  # generation/import failures of grammar and fragment-graph inputs are C01/C04/C08's subject
             rep.violation(f'{r["status"]}:{r.get("gen_error_type")}', F(), r["gen_error"], desc)
             continue
@@ -96,7 +109,7 @@ def main(tier):
         for opn, clause, detail in r["problems"]:
             rep.violation(clause, F(), detail, dict(desc, operation=opn, sent=(r["ops"].get(opn) or {}).get("query")))
         key = (c["doc_text"], c["family"])
-        if c["family"] in ("literal", "fragment_graph"):
+        if c["family"] in ("literal", "fragment_graph", "mixin"):
             by_doc.setdefault(key, {})[bool(c["options"])] = (c, r)
         if len(rep.samples) < 5 and c["family"] != "grammar" and r["ops"]:
             rep.sample({"family": c["family"], "authored": c["doc_text"], "sent": next(iter(r["ops"].values()))["query"], "plugins": c["options"].get("plugins", [])})
